@@ -4,7 +4,10 @@ use crate::common::udpendpoint::UDPEndpoint;
 use crate::common::{alc, fdtinstance::FdtInstance, lct};
 use crate::{receiver::writer::ObjectMetadata, tools};
 use crate::{receiver::writer::ObjectWriter, tools::error::Result};
+#[cfg(not(feature = "verif"))]
 use std::time::Instant;
+#[cfg(feature = "verif")]
+use crate::verif::Instant;
 use std::{cell::RefCell, rc::Rc, time::SystemTime};
 
 #[derive(Clone, Copy, PartialEq, Debug)]
